@@ -51,6 +51,12 @@ namespace drv {
             if (ov.is_valid() && ov.get()[*h.t[i]].is_valid() != declared) bad |= 16u;
          }
          h.d[i] = r.declare_var(*h.n[i], *h.t[i]);
+         {  // ... and the very same question again right after the declaration: now it must be found
+            Optional<ipr::Overload> ov = static_cast<const ipr::Region&>(r).bindings()[*h.n[i]];
+            Hist q = h; q.k = i + 1;
+            if (!ov.is_valid()) bad |= 4u;
+            else { Optional<ipr::Decl> sel = ov.get()[*h.t[i]]; if (!sel.is_valid() || &sel.get() != h.d[first_same(q, i)]) bad |= 8u; }
+         }
          Hist p = h; p.k = i + 1; bad |= scope_clauses(r.bindings(), p, n2, t2);                                               // the clauses hold after EVERY step of the history
       }
       return bad;
